@@ -2081,7 +2081,11 @@ DenseMatrix DenseMatrix::loads(const std::string &serialized)
     vec_basic obj;
     std::istringstream iss(serialized);
     RCPBasicAwareInputArchive<cereal::PortableBinaryInputArchive> iarchive{iss};
-    iarchive(major, minor);
+    try {
+        iarchive(major, minor);
+    } catch (cereal::Exception &e) {
+        throw SerializationError(e.what());
+    }
     if (major != SYMENGINE_MAJOR_VERSION or minor != SYMENGINE_MINOR_VERSION) {
         throw SerializationError(StreamFmt()
                                  << "SymEngine-" << SYMENGINE_MAJOR_VERSION
@@ -2090,7 +2094,13 @@ DenseMatrix DenseMatrix::loads(const std::string &serialized)
                                  << "created using SymEngine-" << major << "."
                                  << minor << ".");
     }
-    iarchive(row, col, obj);
+    try {
+        iarchive(row, col, obj);
+    } catch (cereal::Exception &e) {
+        throw SerializationError(e.what());
+    }
+    if (static_cast<size_t>(row) * col != obj.size())
+        throw SerializationError("Matrix shape and number of entries differ");
     return DenseMatrix(row, col, std::move(obj));
 #else
     throw NotImplementedError("Serialization not implemented in no-rtti mode");
